@@ -10,6 +10,7 @@ from harness.ns import QNAMES
 
 ID = "C08"
 LEAN_MODULES = ["Pypika.Props.C08"]
+TRACE_BUILDER = True   # builder calls made by this check are also run through Pypika.B.step (harness/trace.py)
 THEOREMS = ["Pypika.C08.step_congr", "Pypika.C08.swap", "Pypika.C08.bubble", "Pypika.C08.interleavings_agree",
             "Pypika.C08.accumulate", "Pypika.C08.nsBase_mono", "Pypika.C08.equiv_cases"]
 AGREE = []
